@@ -21,7 +21,10 @@ FLOAT_EDGE = [0.0, -0.0, 1.0, -1.0, 0.5, 1e308, 5e-324, 2.2250738585072014e-308,
 INT_EDGE = [0, 1, -1, 2, 255, 256, 2 ** 31, -2 ** 31, 2 ** 53 - 1, 2 ** 53, 2 ** 53 + 1, -(2 ** 53) + 1, -(2 ** 53),
             -(2 ** 53) - 1, 2 ** 63, 2 ** 64, 2 ** 100, -(2 ** 100), 10 ** 30, 2 ** 1000]
 STR_EDGE = ["", "a", "b", "doc", "x y", "\n", "\x00", "\x7f", "é", " ", "\U0001f600", "\ud800", "\udc80x", "a\udfffb",
-            "😀", "'", '"', "\\", "nan", "inf", "͸", "\U000e0100", "{}", "%s"]
+            "😀", "'", '"', "\\", "nan", "inf", "͸", "\U000e0100", "{}", "%s",
+            # a lone surrogate next to characters whose printability depends on the interpreter's
+            # Unicode database version (assigned in Unicode 12-15)
+            "\ud800\u0870", "\udc80\U0001fae0", "\ud800\u0cf3", "\U0001fae0"]
 BYTES_EDGE = [b"", b"a", b"\x00", b"\xff\xfe", b"doc", b"'\"\\"]
 
 
